@@ -58,6 +58,9 @@ def main():
             verdict += " (no-failing-input-found)"
         if m.get("history"):
             verdict += " — " + m["history"]
+        cr = m.get("confirmed_in_repo")
+        if cr:
+            verdict += "; applied to /repo itself: exit %d" % cr["exit"]
         seedtab += "| seeded/%s | %s — needs: %s | %s | %s |\n" % (
             name, esc((m.get("summary") or "")[:300]), esc((m.get("needs") or "")[:220]), verdict,
             esc(", ".join(c["violation_keys"][:4])))
